@@ -50,7 +50,7 @@ class C18(Check):
     extracted = ['coq/Codec/model.mli', 'coq/Codec/model.ml', 'ocaml/zconv.ml', 'ocaml/codec_driver.ml']
     harness_sources = ['harness/codec.cpp']
     technique = 'machine-checked proof (Coq 8.16) about an executable model + differential correspondence under ASan/UBSan'
-    level_text = ('20 theorems in Coq (Properties_C18.v, all closed under the global context) about an executable model of the codecs. '
+    level_text = ('26 theorems in Coq (Properties_C18.v, all closed under the global context) about an executable model of the codecs. '
                   'UTF-8: for every code point 0 <= cp < 0x110000 (all 1,114,112, by range with lia/bit lemmas, no sweep) toString cp is '
                   'the RFC 3629 layout, fromString(toString cp) = cp and isValid accepts it (utf8_roundtrip, utf8_text_roundtrip for '
                   'sequences); surrogates D800..DFFF are laid out as ordinary 3-byte sequences - the code excludes nothing '
@@ -62,7 +62,13 @@ class C18(Check):
                   'utf8_is_valid_accepts_text). Integers: print = the canonical decimal text of the cast argument, parse of the '
                   'canonical text of any in-range value = that value, parse(print v) = v over the full range of int, uint, int64, '
                   'uint64 and = the C cast of v outside (integer_prints_canonical, integer_parses_canonical, '
-                  'integer_roundtrips_in_range, integer_roundtrips_cast). fromHex = upper-case hex text for every byte string '
+                  'integer_roundtrips_in_range, integer_roundtrips_cast). The parsers on EVERY byte string (modelled libc): run as checked-read '
+                  'machines on the String\'s buffer (bytes ++ terminator) they never fail a read and never look beyond the terminator '
+                  '(parsers_total_within_terminator, parsers_never_fail, parsers_ignore_bytes_behind_terminator); every string is leading white '
+                  'space ++ optional sign ++ longest digit prefix ++ ignored rest, and toInt64 = the signed value of the prefix clamped to '
+                  '[-2^63, 2^63-1], toUInt64 = 2^64-1 if the magnitude exceeds it, else the magnitude (negated modulo 2^64 after a minus sign), '
+                  'toInt / toUInt = those results truncated to 32 bit, no digit = 0 (parsers_on_all_strings, parsers_value_of_shape, '
+                  'noncanonical_forms_agree); the canonical-text and round-trip theorems are corollaries. fromHex = upper-case hex text for every byte string '
                   '(hex_is_upper_hex). fromBase64 (as repaired) returns bs on rfc4648_encode bs for EVERY byte string bs (induction over '
                   '3-byte groups + three tails; base64_inverts_rfc4648, base64_table_inverts_alphabet) and for every input list stays '
                   'inside its input, its 123-entry table and its output buffer and never reads an unwritten cell (base64_in_bounds); '
@@ -75,9 +81,12 @@ class C18(Check):
                   'MODELLED as reference decimal functions (digit loop; white space, sign, longest digit prefix, clamp to 64 bit, cast) - '
                   'the integer theorems are about that model (trusted) and the tie for it is boundary/random differential testing only. '
                   'String memory management (detach/reserve/resize/append) is not modelled here (C06) except the output buffer of '
-                  'fromBase64 (capacity = inlen|3 plus terminator, cells unwritten until written). Behaviour validated by '
-                  'correspondence only (modelled, no theorem): parsers on non-canonical text (white space, +, leading zeros, '
-                  'trailing garbage, overflow clamping), fromBase64 results on strings that are not RFC 4648 encodings (only '
+                  'fromBase64 (capacity = inlen|3 plus terminator, cells unwritten until written). The parsers on non-canonical text (white '
+                  'space, +, leading zeros, trailing garbage, overflow clamping) now have theorems about the model of libc; that glibc behaves '
+                  'like this model is the trusted part, tied by the exhaustive small-scope stream int_forms (alphabet {space + - 0 1 9 x}, '
+                  'length <= 5 in the thorough tier) and the boundary list of int_text; the reference (CodecSpec.ref_value) still leaves '
+                  'non-canonical text open, so a difference there is reported as a model/implementation difference. Behaviour validated by '
+                  'correspondence only (modelled, no theorem): fromBase64 results on strings that are not RFC 4648 encodings (only '
                   'bounds-safety is proved for them). isValid is proved equal to layout validity (lead byte + announced number of '
                   'continuation bytes): it accepts overlong forms, surrogates and values above U+10FFFF, which the property text '
                   'leaves open. The theorems are about the model; the tie to the code is differential: all 1,114,112 code points '
@@ -91,7 +100,8 @@ class C18(Check):
             'thorough; class-alphabet sweeps of lengths 2-4 in quick) for the readers, mostly-valid UTF-8 text with one mutation, '
             'base64 strings up to length 4 over {A Q f z / + 9 = { 00 80 ff}, 4-character base64 strings with one position over all 256 '
             'values, RFC 4648 encodings of random byte strings and mutations of them, integer boundaries (min/max, 0, +-1, 10^k+-1, '
-            '2^k+-1) and random values, malformed decimal text. A case is non-trivial when at least one call takes a multi-byte / '
+            '2^k+-1) and random values, malformed decimal text, every string over {space + - 0 1 9 x} up to length 5 (thorough; length 3 plus a '
+            'sample in quick) through the four parsers (to* print the member function, then the static overload on an exactly sized C string). A case is non-trivial when at least one call takes a multi-byte / '
             'multi-digit / multi-group path (code point >= 0x80, reader input with a byte >= 0x80, any sweep, base64 input of a non-zero '
             'multiple of 4 characters, |integer| >= 10, non-empty hex input); u8rt/u8dec/u8valid print the reader results twice '
             '(pointer overload on an exactly sized heap copy, then the String overload); hex inputs include 63, 64, 65, 300 and '
@@ -391,6 +401,24 @@ class C18(Check):
             s = b''.join(rng.choice(pieces) for _ in range(rng.randrange(1, 5)))
             ops.append('to%s %s' % (rng.choice(INT_TYPES)[0], hexs(s)))
         out.append(Stream('int_text', chunk(ops, 60), note='white space, signs, leading zeros, trailing garbage, NUL and high bytes, values around and beyond every type limit'))
+
+        # -- non-canonical forms, small scope: every string over {' ', '+', '-', '0', '1', '9', 'x'} up to length 5 (thorough; quick: up to
+        #    length 3 and a sample of lengths 4-5), each through all four conversions.  Aimed at the case split of
+        #    parsers_on_all_strings: amount of white space, which sign, leading zeros, where the digit prefix ends, what follows it.
+        forms = [0x20, 0x2b, 0x2d, 0x30, 0x31, 0x39, 0x78]
+        ops = []
+        strs = [w for n in range(0, 6 if thorough else 4) for w in product(forms, n)]
+        if not thorough:
+            seen = set()
+            while len(seen) < 450:
+                seen.add(bytes(rng.choice(forms) for _ in range(rng.choice((4, 5)))))
+            strs += sorted(seen)
+        for w in strs:
+            for name, _, _ in INT_TYPES:
+                ops.append('to%s %s' % (name, hexs(w)))
+        out.append(Stream('int_forms', chunk(ops, 256), exhaustive=thorough,
+                          note="every string over {' ', '+', '-', '0', '1', '9', 'x'} of length <= %s through toInt/toUInt/toInt64/toUInt64 "
+                               "(member function and static overload)" % ('5' if thorough else '3, and 450 random ones of length 4-5')))
         return out
 
     # ---- independent search oracles (never a proof) ----------------------------------------------
